@@ -15,6 +15,9 @@ type Profile struct {
 	DataRatio   int // chance (in 100) that a packet op is a Data
 	NextHop     int // chance (in 100) that an Interest carries NextHopFaceId
 	Hints       int // chance (in 100) of a forwarding hint
+	DynShape    int // chance (in 100) of dynShape (faces with ids from the real face table)
+	ScopeShape  int // chance (in 100) of scopeShape
+	SatShape    int // chance (in 100) of satisfiedShape
 	DnlShape    int // chance (in 100) that a history contains the dead-nonce re-report shape (dnlRereport)
 	FibChurn    int // chance (in 100) of a FIB/strategy/face change between packets
 	DefaultToNL int // chance (in 100) of a default route towards a non-local face
@@ -23,9 +26,9 @@ type Profile struct {
 }
 
 var (
-	P01 = Profile{ID: "C01", DnlShape: 4, Localhost: 8, DataRatio: 45, NextHop: 3, Hints: 10, FibChurn: 6, DefaultToNL: 30, LinkSvc: 35, RealTCP: 10}
-	P02 = Profile{ID: "C02", DnlShape: 20, Localhost: 6, DataRatio: 25, NextHop: 10, Hints: 20, FibChurn: 15, DefaultToNL: 30, LinkSvc: 35, RealTCP: 10}
-	P09 = Profile{ID: "C09", DnlShape: 4, Localhost: 45, DataRatio: 40, NextHop: 12, Hints: 8, FibChurn: 8, DefaultToNL: 70, LinkSvc: 50, RealTCP: 35}
+	P01 = Profile{ID: "C01", DnlShape: 4, DynShape: 20, ScopeShape: 15, SatShape: 4, Localhost: 8, DataRatio: 45, NextHop: 3, Hints: 10, FibChurn: 6, DefaultToNL: 30, LinkSvc: 35, RealTCP: 10}
+	P02 = Profile{ID: "C02", DnlShape: 20, DynShape: 5, ScopeShape: 4, SatShape: 20, Localhost: 6, DataRatio: 25, NextHop: 10, Hints: 20, FibChurn: 15, DefaultToNL: 30, LinkSvc: 35, RealTCP: 10}
+	P09 = Profile{ID: "C09", DnlShape: 4, DynShape: 10, ScopeShape: 15, SatShape: 4, Localhost: 45, DataRatio: 40, NextHop: 12, Hints: 8, FibChurn: 8, DefaultToNL: 70, LinkSvc: 50, RealTCP: 35}
 )
 
 func comp(s string) enc.Component {
@@ -149,6 +152,102 @@ func (s *genSt) dnlRereport(L int) {
 	s.advMs(X + 250)
 	s.g.Op("I %d %s 0 0 11 - %d - - -", f, name, 4*L)
 	s.g.Stat("dnl-rereport-shape")
+}
+
+// pickWhere returns a face with the wanted scope (0 if there is none).
+func (s *genSt) pickWhere(local bool) int {
+	var c []int
+	for _, f := range s.faces {
+		if s.local[f] == local {
+			c = append(c, f)
+		}
+	}
+	if len(c) == 0 {
+		return 0
+	}
+	return common.Pick(s.r, c)
+}
+
+/* dynShape: faces whose ids are handed out by the real face table. A downstream face with an Interest
+   pending upstream closes, another face is created, then the Data returns: it must go to nobody. */
+func (s *genSt) dynShape() {
+	r := s.r
+	up := s.face()
+	n := common.NameText(nm(common.Pick(r, alphabet), "dyn"))
+	s.g.Op("dynface 901 %s p2p", common.Pick(r, []string{"L", "N"}))
+	s.g.Op("fib %s %d 0", n, up)
+	s.g.Op("I 901 %s %d 0 21 - 4000 c1 - -", n, b2i(r.Chance(1, 3)))
+	if r.Chance(2, 3) {
+		s.g.Op("dynclose 901")
+		s.g.Op("dynface 902 %s p2p", common.Pick(r, []string{"L", "N"}))
+		s.g.Stat("dyn-close-reopen")
+	}
+	if r.Chance(1, 2) {
+		s.g.Op("D %d %s - 9 @%s", up, n, n)
+	} else {
+		s.g.Op("D %d %s - 9 -", up, n)
+	}
+	if r.Chance(1, 2) {
+		s.g.Op("I 902 %s 0 0 22 - 4000 c2 - -", n)
+		s.g.Op("D %d %s 1000 10 -", up, n)
+	}
+	s.g.Stat("dyn-shape")
+}
+
+/* scopeShape: /localhost Data that satisfies a pending Interest of a NON-local face whose own name is not
+   under /localhost: (a) Interest "/" with CanBePrefix, (b) Data echoing the PIT token under another name. */
+func (s *genSt) scopeShape() {
+	r := s.r
+	nl, lo := s.pickWhere(false), s.pickWhere(true)
+	if nl == 0 || lo == 0 {
+		return
+	}
+	lh := common.NameText(append(nm("localhost"), comp(common.Pick(r, alphabet))))
+	if r.Chance(1, 2) {
+		s.g.Op("I %d / 1 %d %d - 4000 %s - -", nl, b2i(r.Chance(1, 4)), r.Range(41, 45), s.tokHex())
+		if r.Chance(1, 2) {
+			// a second entry under "/" makes it a multi-match
+			s.g.Op("I %d / 1 1 %d - 4000 - - -", nl, r.Range(46, 49))
+		}
+		s.g.Op("D %d %s %s %d -", lo, lh, common.Pick(r, []string{"-", "1000"}), r.Range(1, 250))
+		if r.Chance(1, 2) {
+			// the cache-hit variant
+			s.g.Op("I %d / 1 0 %d - 4000 - - -", nl, r.Range(50, 55))
+		}
+		s.g.Stat("scope-shape-empty-name")
+	} else {
+		n := common.NameText(nm(common.Pick(r, alphabet), "sc"))
+		s.g.Op("fib %s %d 0", n, lo)
+		s.g.Op("I %d %s 0 0 %d - 4000 %s - -", nl, n, r.Range(41, 45), s.tokHex())
+		s.g.Op("D %d %s - %d @%s", lo, lh, r.Range(1, 250), n)
+		s.g.Stat("scope-shape-token")
+	}
+}
+
+/* satisfiedShape: a satisfied PIT entry is re-used before the sweep removes it; when it then expires
+   unanswered its out-record nonce must still reach the dead nonce list. */
+func (s *genSt) satisfiedShape(L int) {
+	r := s.r
+	f, up := s.face(), s.face()
+	for up == f {
+		up = s.face()
+	}
+	back := s.face()
+	for back == up {
+		back = s.face()
+	}
+	n := common.NameText(nm(common.Pick(r, alphabet), "sat"))
+	X := L / 4
+	if X < 60 {
+		X = 60
+	}
+	s.g.Op("fib %s %d 0", n, up)
+	s.g.Op("I %d %s 0 1 31 - %d - - -", f, n, X)
+	s.g.Op("D %d %s - 5 %s", up, n, common.Pick(r, []string{"-", "@" + n}))
+	s.g.Op("I %d %s 0 1 32 - %d - - -", f, n, X)
+	s.advMs(X + 250)
+	s.g.Op("I %d %s 0 1 32 - %d - - -", back, n, X)
+	s.g.Stat("satisfied-reuse-shape")
 }
 
 func (s *genSt) tokHex() string {
@@ -429,6 +528,15 @@ func Gen(g *common.Gen, p Profile) {
 		}
 		if r.Intn(100) < p.DnlShape {
 			s.dnlRereport(dnlMs)
+		}
+		if r.Intn(100) < p.SatShape {
+			s.satisfiedShape(dnlMs)
+		}
+		if r.Intn(100) < p.ScopeShape {
+			s.scopeShape()
+		}
+		if r.Intn(100) < p.DynShape {
+			s.dynShape()
 		}
 		np := r.Range(10, 40)
 		for k := 0; k < np; k++ {
